@@ -139,6 +139,15 @@ impl<Octets> UncertainName<Octets> {
     {
         let mut builder =
             NameBuilder::<<Octets as FromBuilder>::Builder>::new();
+        let mut chars = chars.into_iter().peekable();
+        if chars.next_if_eq(&'.').is_some() {
+            // NameBuilder can’t deal with a single dot, i.e., the root
+            // name, so we need to special case that.
+            if chars.peek().is_none() {
+                return Ok(builder.into_name()?.into());
+            }
+            return Err(FromStrError::empty_label());
+        }
         builder.append_chars(chars)?;
         if builder.in_label() || builder.is_empty() {
             Ok(builder.finish().into())
